@@ -365,7 +365,75 @@ def case_key(want: str) -> tuple:
     return kinds
 
 
-def check_generated(ch: Channel, cases, outs, json_every=1, hrng=None):
+VARIANTS = [
+    {"reader": ("window", 64, 2)}, {"reader": ("window", 128, 1)}, {"reader": "data"},
+    {"options": "dict"}, {"options": "iv-bits"}, {"strict": True},
+]
+
+
+def check_variants(ch: Channel, grid, outs):
+    """the same inputs through the other ways of handing them to the parser: the library's own
+    BufferedReader with a cache window smaller than / equal to the payloads, options as a dict,
+    iv_size in bits, strict mode"""
+    pick = [(lab, c, o) for k, ((lab, _, c), o) in enumerate(zip(grid, outs))
+            if lab.startswith(("payload", "senc", "content", "fixed-width")) or "largesize" in lab or k % 9 == 0]
+    base = dict(I.VARIANT)
+    try:
+        for v in VARIANTS:
+            I.VARIANT.update(base)
+            I.VARIANT.update(v)
+            name = "variant:" + ",".join(f"{k}={val}" for k, val in v.items())
+            for lab, c, o in pick:
+                if len(ch.oracle_failures) >= 20:
+                    break
+                if "iv-bits" in name and not lab.startswith(("senc", "traf-order")):
+                    continue
+                data = bytes.fromhex(o) if o != "-" else b""
+                ch.evaluations += 1
+                ch.count(name)
+                ch.nontrivial.add((name, lab))
+                HIST.begin([])
+                fails = oracle_roundtrip(data, c[0], want_json=False)
+                if fails:
+                    ch.oracle_failures.append(failure(fails, data, c[0], {"variant": v, "case": lab}))
+                HIST.end(ch, data, c[0])
+    finally:
+        I.VARIANT.clear()
+        I.VARIANT.update(base)
+
+
+def check_history_grid(ch: Channel):
+    """every read-only operation (and every argument-less public method) on every box of a fixed tree,
+    then the checked operations on that tree and on a tree of unknown boxes – the same for every seed"""
+    import random
+    r = random.Random("history-grid")
+    tree = [G.leaf("styp", "ftyp", G.gen_fields("ftyp", r)), G.leaf("free", "opaque", dict(data=b"0x00ff")),
+            G.leaf("emsg", "emsg", G.gen_fields("emsg", r)),
+            ("N", G.cc("moov"), False, [("N", G.cc("mvex"), False, [G.leaf("mehd", "mehd", G.gen_fields("mehd", r)),
+                                                                   G.leaf("trex", "trex", G.gen_fields("trex", r))]),
+                                        G.leaf("pssh", "pssh", G.gen_fields("pssh", r)), G.leaf("skip", "opaque", dict(data=b"x"))]),
+            ] + G._frag([G.leaf("tfdt", "tfdt", G.gen_fields("tfdt", r))]) + [G.leaf("mdat", "opaque", dict(data=b"abcd"))]
+    plain = [G.leaf("free", "opaque", dict(data=b"12")), G.leaf("mdat", "opaque", dict(data=b"34"))]
+    enc = run_driver(["boxenc 8 0 - " + " ".join(G.forest_tokens(t)) for t in (tree, plain)])
+    d1, d2 = bytes.fromhex(enc[0]), bytes.fromhex(enc[1])
+    ops = [(op, 0) for op in I.FIXED_OPS] + [("method", k) for k in range(12)]
+    for op, arg in ops:
+        if len(ch.oracle_failures) >= 20:
+            break
+        calls = [[i, op, arg + i] if op in ("find_child", "index") else [i, op, arg] for i in range(14)]
+        HIST.begin(calls)
+        ch.evaluations += 1
+        ch.count("history-grid")
+        ch.nontrivial.add(("history-grid", op, arg))
+        for d in (d1, d2):
+            fails = oracle_roundtrip(d, 8)
+            if fails:
+                ch.oracle_failures.append(failure(fails, d, 8, {"history_op": op}))
+                break
+        HIST.end(ch, d1, 8)
+
+
+def check_generated(ch: Channel, cases, outs, json_every=1, hrng=None, calls=True):
     import random
     hrng = hrng or random.Random(0)
     dec = run_driver(["boxdec " + " ".join(G.ctx_tokens(ctx)) + " " + o for (f, ctx), o in zip(cases, outs)])
@@ -378,7 +446,7 @@ def check_generated(ch: Channel, cases, outs, json_every=1, hrng=None):
             ch.errors.append("driver rejected a generated forest: " + want[:200])
             continue
         data = bytes.fromhex(o) if o != "-" else b""
-        HIST.begin(I.gen_calls(hrng))
+        HIST.begin(I.gen_calls(hrng) if calls else [])
         ch.count("read-only calls before the checked operation: %d" % len(HIST.calls))
         if d != want:
             ch.disagreements.append({"what": "model decode of its own encoding differs", "want": want[:400], "got": d[:400]})
@@ -414,6 +482,18 @@ def check_generated(ch: Channel, cases, outs, json_every=1, hrng=None):
             mini = shrink_forest(forest, ctx, lambda b: bool(oracle_roundtrip(b, ctx[0], want_json=True))) or data
             f2 = oracle_roundtrip(mini, ctx[0]) or fails
             ch.oracle_failures.append(failure(f2, mini if oracle_roundtrip(mini, ctx[0]) else data, ctx[0]))
+        HIST.end(ch, data, ctx[0])
+    # re-issue the first cases at the end: whatever happened in between, the answer is the same
+    for (forest, ctx), o in list(zip(cases, outs))[:25]:
+        if o in ("bad-op", "-") or len(ch.oracle_failures) >= 20:
+            continue
+        data = bytes.fromhex(o)
+        HIST.begin([])
+        ch.evaluations += 1
+        ch.count("re-issued at the end of the stream")
+        fails = oracle_roundtrip(data, ctx[0])
+        if fails:
+            ch.oracle_failures.append(failure(fails, data, ctx[0], {"reissued": True}))
         HIST.end(ch, data, ctx[0])
 
 
@@ -491,7 +571,11 @@ def check_fixtures(ch: Channel, ctx, mdat_budget: int):
 
 def ch_boxcodec(ctx):
     ch = Channel("boxcodec", rule=(
-        "(a) seeded well-formed forests (every modelled class with all flag combinations, boundary widths, empty "
+        "(0) a deterministic grid, identical for every seed: every numeric field of every modelled class at every "
+        "boundary of its width in both versions, lists of 0/1/2/3 items, all 120 orders of the traf children, every "
+        "content class in every opaque field, long payloads, re-run through the library's own BufferedReader with a "
+        "small cache window / options as dict / iv_size in bits / strict mode, and every read-only operation on every "
+        "box of a fixed tree before the checked operations; (a) seeded well-formed forests (every modelled class with all flag combinations, boundary widths, empty "
         "lists, 64-bit headers, uuid types, containers to depth 5, fragments with consistent offsets) are encoded by "
         "the Lean model; the real Mp4Atom.load must expose exactly those field values and encode() the same bytes "
         "in eager/lazy x r/rw mode; (b) every top-level box of every fixture file is decoded by the model and must "
@@ -499,9 +583,20 @@ def ch_boxcodec(ctx):
         "distinct non-mdat fixture box. The Layer-C oracle (parse->encode == input, eager == lazy field values, "
         "JSON round trip) runs on the same inputs and on the whole fixture files."))
     rng = ctx.rng("boxcodec")
-    n = ctx.scale(700, 15000)
-    cases = [G.gen_forest(rng, ctx.thorough and i % 7 == 0) for i in range(n)]
+    n = ctx.scale(500, 11000)
     try:
+        # (0) the deterministic grid: the same cases for every seed
+        grid = G.grid_cases() + G.long_payload_cases(
+            [127, 128, 129, 400, 1024, 4095, 4096, 4097] + ([65535, 65536, 65537, 1 << 20] if ctx.thorough else [65537]))
+        gcases = [(f, c) for _, f, c in grid]
+        gouts = encode_cases(gcases)
+        for label, _, _ in grid:
+            ch.count("grid:" + label.split(".")[0].split(":")[0].split("=")[0].split("#")[0])
+        check_generated(ch, gcases, gouts, json_every=1, hrng=None, calls=False)
+        check_variants(ch, grid, gouts)
+        check_history_grid(ch)
+        # (a) seeded forests
+        cases = [G.gen_forest(rng, ctx.thorough and i % 7 == 0) for i in range(n)]
         outs = encode_cases(cases)
         check_generated(ch, cases, outs, json_every=1 if ctx.thorough else 2, hrng=ctx.rng("history"))
         check_fixtures(ch, ctx, mdat_budget=ctx.scale(60_000, 400_000))
@@ -1044,10 +1139,14 @@ def ch_classes_diff(ctx):
     ch.sample({"distinct fixture boxes": len(seen)})
     # (c) every optional/conditional layout of those classes, synthesised from the specifications
     srng = ctx.rng("synth")
-    for _ in range(ctx.scale(700, 6000)):
+    grid = S.synth_grid()
+    ch.count("synth-grid (same for every seed)", len(grid))
+    todo = grid + [None] * ctx.scale(450, 6000)
+    for item in todo:
         if len(ch.oracle_failures) >= 20:
             break
-        label, data = S.synth(srng)
+        label, data = item if item is not None else S.synth(srng)
+        label = label.split(".")[0]
         ch.evaluations += 1
         ch.count("synth:" + label)
         ch.nontrivial.add((label, data))
@@ -1114,10 +1213,17 @@ def _oracle_on_failure_dict(f):
         except Exception:
             pass
     HIST.calls = f.get("calls") or []
+    base = dict(I.VARIANT)
+    v = dict(f.get("variant") or {})
+    if isinstance(v.get("reader"), list):
+        v["reader"] = tuple(v["reader"])
+    I.VARIANT.update(v)
     try:
         return _oracle_case(f)
     finally:
         HIST.calls = []
+        I.VARIANT.clear()
+        I.VARIANT.update(base)
 
 
 def _oracle_case(f):
@@ -1243,7 +1349,7 @@ def replay(ctx, payload):
     fails = _oracle_on_failure_dict(f)
     return {"fails": bool(fails), "failures": fails[:5], "input": {k: (v if k != "data" else v[:200]) for k, v in f.items()
                                                                    if k in ("kind", "data", "iv", "fixture", "edits", "regions",
-                                                                            "calls", "prelude")}}
+                                                                            "calls", "prelude", "variant")}}
 
 
 def replay_finding(ctx, finding):
